@@ -44,6 +44,11 @@ def s_thread(draw, tid):
         ops.append({"op": "startTestRun"})
     ntests = draw(st.integers(1, 3))
     for k in range(ntests):
+        if k and draw(st.integers(0, 4)) == 0:
+            # the same forwarder goes on to report another run
+            if draw(st.booleans()):
+                ops.append({"op": "stopTestRun"})
+            ops.append({"op": "startTestRun"})
         if draw(st.integers(0, 2)) == 0:
             new = draw(H.TAGSET)
             ops.append({"op": "tags", "new": sorted(new), "gone": sorted(draw(H.TAGSET) - new)})
@@ -132,8 +137,8 @@ def execute(spec, schedule=None):
                 k = op["op"]
                 try:
                     if k == "startTestRun":
+                        tagm.start_run()          # the reporter has begun a new run, whatever the target makes of it
                         fwd.startTestRun()
-                        tagm.start_run()
                     elif k == "stopTestRun":
                         fwd.stopTestRun()
                     elif k == "tags":
@@ -278,6 +283,18 @@ def execute(spec, schedule=None):
                         vs.append(V("exactly-once", "outcome-count", "%s has %d outcomes at the target" % (r["test"].id(), len(got))))
                     elif got[0] != r["tags"]:
                         vs.append(V("block-content", "tags", "%s delivered with tags %r, its thread had %r" % (r["test"].id(), sorted(got[0]), sorted(r["tags"]))))
+        # that test's tags, read off the block itself (also when a run-level call on the target raised)
+        for tid, test, blk in seen_tests:
+            r = next((r for r in reports[tid] if r["test"] is test), None)
+            if r is None or "tags" not in r or r.get("faulted"):
+                continue
+            cur = set()
+            for e in blk:
+                if e[1] == "tags":
+                    cur = (cur | set(e[2][0])) - set(e[2][1])
+            if frozenset(cur) != r["tags"] and not any(v.bucket == "block-content:tags" for v in vs):
+                vs.append(V("block-content", "tags-in-block", "block of %s carries tags %r, its thread had %r for that test%s" % (
+                    test.id(), sorted(cur), sorted(r["tags"]), " (a call on the target raised earlier: %r)" % (faults_seen,) if faults_seen else "")))
     stats = {"switches": sched.switches, "open_switches": open_switch[0], "calls": calls[0], "fault_hit": fault_hit,
              "decisions": len(sched.decisions)}
     return vs, stats, sched.decisions
